@@ -330,9 +330,13 @@ def extract_fn(repo, d, template_text):
             whole = whole[:m.start()] + new + whole[m.end():]
             old = old_txt
         else:
-            _validate_subst(kind, old, new, template_text)
-            idx = _once(whole, old, f"SUBST {kind} old text")
-            whole = whole[:idx] + new + whole[idx + len(old):]
+            # literal text, compared modulo whitespace
+            rx, _ = _meta_regex(old)
+            ms = list(re.finditer(rx, whole))
+            if len(ms) != 1:
+                raise ExtractError(f"lost anchor: SUBST {kind} old text occurs {len(ms)} times (needs exactly 1): {old[:80]!r}")
+            _validate_subst(kind, ms[0].group(0), new, template_text)
+            whole = whole[:ms[0].start()] + new + whole[ms[0].end():]
         # the signature never contains `{`; re-split at the first code-level brace
         sig, body = _resplit(whole)
         tr.append({"kind": kind, "old": rustscan.norm_ws(old)[:200], "new": rustscan.norm_ws(new)[:300]})
@@ -354,7 +358,12 @@ def extract_fn(repo, d, template_text):
         if p in ords:
             continue
         anchor = p["anchor"].strip()
-        idx = _once(body, anchor, "PROOF anchor")
+        rx, _ = _meta_regex(anchor)
+        ms = list(re.finditer(rx, body))
+        if len(ms) != 1:
+            raise ExtractError(f"lost anchor: PROOF anchor occurs {len(ms)} times (needs exactly 1): {anchor[:80]!r}")
+        idx = ms[0].start()
+        anchor = ms[0].group(0)
         if p["where"] == "before":
             body = body[:idx] + p["text"].rstrip() + "\n        " + body[idx:]
         else:
